@@ -41,19 +41,20 @@ SLOTS = {
     "W1": dict(x="int", c="ocfg"), "W2": dict(x="int", c="ocfg"),
     "S2": dict(a="str!", b="str"),
     "EH": dict(lv="Level", md="oMode", x="int", kd="oEHKind"),
+    "GenC": dict(x="int"),
     "TaskSelf": dict(x="int", c="cfg!"),
     "TaskSelfG": dict(x="int", c="cfg!"),
     "Leaf2": dict(i="int!", s="str"),
     "GenV": dict(x="int"),                  # gs is generated (an int, not a path)       # vpk.schema2.Leaf: same class NAME as Leaf, another module
 }
 CLASS_WEIGHTS = [("Leaf", 6), ("Inner", 7), ("Bag", 5), ("Req", 1), ("TaskA", 2), ("TaskOut", 1), ("Pre", 1),
-                 ("Init", 1), ("NewL", 1), ("OldL", 1), ("NewT", 1), ("OldT", 1), ("V1", 1), ("V2", 1), ("K1", 1), ("W1", 1), ("S2", 1), ("EH", 2), ("TaskSelf", 2), ("Leaf2", 3), ("GenV", 3)]
+                 ("Init", 1), ("NewL", 1), ("OldL", 1), ("NewT", 1), ("OldT", 1), ("V1", 1), ("V2", 1), ("K1", 1), ("W1", 1), ("S2", 1), ("EH", 2), ("TaskSelf", 2), ("Leaf2", 3), ("GenV", 3), ("GenC", 2)]
 # slots whose declaration is ignored (Meta/Option) -- used by the neutral-edit generator
 IGNORED = {"Leaf": {"m", "op", "mp"}, "Inner": {"mc", "oc"}, "Bag": {"mlc", "lp"}, "Init": {"w"}, "V2": {"z"}}
 DEFAULTS = {("Leaf", "f"): 1.5, ("Leaf", "s"): "a", ("Leaf", "b"): False, ("Leaf", "e"): "RED", ("Inner", "x"): 0,
             ("Inner", "name"): "", ("TaskA", "x"): 0, ("TaskOut", "x"): 0, ("Pre", "v"): 0, ("Init", "v"): 0,
             ("NewL", "i"): 0, ("OldL", "i"): 0, ("NewT", "x"): 0, ("OldT", "x"): 0, ("V2", "y"): 3, ("V2", "aa"): "dflt", ("V2", "n0"): 0, ("V2", "fl"): False, ("V2", "em"): "", ("Leaf", "od"): 5,
-            ("K1", "x"): 0, ("K2", "x"): 0, ("W1", "x"): 0, ("W2", "x"): 0, ("S2", "b"): "", ("TaskSelf", "x"): 0, ("TaskSelfG", "x"): 0, ("EH", "x"): 0, ("Leaf2", "s"): "a", ("GenV", "x"): 0, ("V2", "fz"): 1.0, ("V2", "iz"): 2}
+            ("K1", "x"): 0, ("K2", "x"): 0, ("W1", "x"): 0, ("W2", "x"): 0, ("S2", "b"): "", ("TaskSelf", "x"): 0, ("TaskSelfG", "x"): 0, ("EH", "x"): 0, ("Leaf2", "s"): "a", ("GenV", "x"): 0, ("GenC", "x"): 0, ("V2", "fz"): 1.0, ("V2", "iz"): 2}
 
 
 def vint(v):
